@@ -462,23 +462,8 @@ setup_done:
 	 * (up to the last, converged, correction) */
 	res->near_best = 1;
 	if (res->lm_exits > 0) {
-	    int idx = 0;
-
-	    for (int i = 0; i < sc->npar; ++i) {
-		sc_par_t *p = &sc->par[i];
-
-		if (p->kind != SCP_UNKNOWN && p->kind != SCP_CORR)
-		    continue;
-		for (int k = 0; k < sc->nf; ++k) {
-		    double complex v = LIB(vnacal_get_parameter_value(vcp,
-				p->handle, sc->f[k]));
-
-		    /* unknown indices follow the order of first use, which
-		     * the driver does not know; compare as sets below */
-		    (void)v;
-		}
-		++idx;
-	    }
+	    /* unknown indices follow the order of first use, which the
+	     * driver does not know: compare as sets */
 	    /* set comparison: every returned value is within p_tol * sqrt(n)
 	     * of some component of the best vector at that frequency */
 	    for (int i = 0; i < sc->npar && res->near_best; ++i) {
@@ -602,16 +587,19 @@ static void run_case(const char *table, uint64_t seed, int row)
 	    se[i] = r.ap.worst;
 	    n += ok[i];
 	}
-	/* tighter tolerance => not farther from truth, except below 100 x
-	 * the tighter tolerance (plus rounding floor) */
-	for (int i = 1; i < N_LADDER; ++i) {
+	/* tighter tolerance => not farther from truth than under the
+	 * previous (looser) tolerance that solved, except below 100 x the
+	 * tighter tolerance (plus rounding floor) */
+	for (int i = 1, prev = -1; i < N_LADDER; ++i) {
 	    double tol = pow(10.0, -ladder[i]);
 
-	    if (!ok[i] || !ok[i - 1])
+	    if (ok[i - 1])
+		prev = i - 1;
+	    if (!ok[i] || prev < 0)
 		continue;
-	    if (pe[i] > fmax(pe[i - 1], 100.0 * tol) + 1e-9)
+	    if (pe[i] > fmax(pe[prev], 100.0 * tol) + 1e-9)
 		mono = 0;
-	    if (se[i] > fmax(se[i - 1], 1000.0 * tol) + 1e-8)
+	    if (se[i] > fmax(se[prev], 1000.0 * tol) + 1e-8)
 		mono = 0;
 	}
 	vt_put("{\"e\":\"Ladder\",\"n\":%d,\"allOk\":%d,\"mono\":%d}",
